@@ -55,6 +55,7 @@ struct sim_authenticator {
         auto init = [this](auto handler, mq::auth_step_e step, std::string) {
             int k = steps++;
             error_code ec = (fail_at >= 0 && k == fail_at) ? error_code(asio::error::access_denied) : error_code{};
+            if (ec && World::cur) World::cur->log(Ev::note, -1, k, 0, "authenticator: step " + std::to_string(k) + " reports a failure");
             std::string out = step == mq::auth_step_e::server_final ? "" : "client-data-" + std::to_string(k);
             asio::post(ex, asio::prepend(std::move(handler), ec, std::move(out)));
         };
